@@ -193,12 +193,7 @@ func (i Int16) ExponentiateInt16(other Int16) Int16 {
 	if other <= 0 {
 		return 1
 	}
-	result := i
-	var j Int16
-	for j = 2; j <= other; j++ {
-		result *= i
-	}
-	return result
+	return StrictIntExponentiate(i, other)
 }
 
 func (i Int16) Subtract(other Value) (Int16, Value) {
